@@ -76,6 +76,8 @@ def lower(plan, rundir):
     L.append('daemonuid %d' % cfg.get('daemon_uid', 0))
     late = cfg.get('late', [0.05, 5.0, 0.02, 0.05])
     L.append('late %s %s %s %s' % tuple(late))
+    if cfg.get('jobctl'):
+        L.append('jobctl %s' % cfg['jobctl'])
     if cfg.get('spawncost'):
         L.append('spawncost %s %s' % tuple(cfg['spawncost']))
     for u in user_table(plan, rundir):
